@@ -36,6 +36,18 @@ def run(tier):
         return vlib.read_ndjson(op)
     with ThreadPoolExecutor(max_workers=vlib.NCPU if not thorough else 6) as ex:
         events = [e for part in ex.map(one, inputs) for e in part]
+    # inputs on which only one of the two P-values of the overlapping test is below 0.01
+    jp = os.path.join(tmp, "hunt.json"); op = os.path.join(tmp, "hunt.ndjson")
+    with open(jp, "w") as fh:
+        json.dump({"serialHunt": 20000 if thorough else 6000, "huntSeed": rng.randrange(1 << 40), "inputs": []}, fh)
+    p = vlib.run_bin(hz, ["results", jp, op], timeout=1200)
+    if p.returncode != 0:
+        raise vlib.InfraError("hz results (hunt) failed: " + (p.stderr or "")[-500:])
+    hunt = vlib.read_ndjson(op)
+    if len(hunt) < 4:
+        raise vlib.InfraError("vacuity: found only %d inputs with exactly one overlapping P-value below 0.01" % len(hunt))
+    events += hunt
+    run.extra["overlapping_one_sided_inputs"] = len(hunt)
     acc, rej, gen = vlib.validate_trace("TraceRegistry", events, timeout=3000, max_rej=6)
     run.states += acc; run.transitions += gen; run.traces += acc; run.evaluations += len(events)
     for e in events:
@@ -43,6 +55,7 @@ def run(tier):
     run.sample({"res_event": events[len(events) // 2]})
     run.sample({"res_event": [e for e in events if e["mode"] == "const1"][0]})
     byid = {i["id"]: i for i in inputs}
+    byid[-1] = {"id": -1, "mode": "serialhunt", "n": 1024, "seed": 0}
     for e in rej:
         run.violation({"kind": "result", "test": e["t"], "param": e["param"], "n": e["n"], "mode": e["mode"], "isrunner": e["isrunner"]},
                       {"cmd": "results", "input": byid[e["id"]], "event": e})
